@@ -366,19 +366,19 @@ def judge_frame(kind, m, msg, opts):
     if kind == 'info':
         want = [i for i in fr.order if i <= 4]
         if idxs != want:
-            return 'metadata-only decode has sections %r, expected %r' % (idxs, want)
+            return ('info-only-sections', 'metadata-only decode has sections %r, expected %r' % (idxs, want))
         return None
     if idxs != list(fr.order):
-        return 'sections %r, the message has %r' % (idxs, list(fr.order))
+        return ('sections', 'sections %r, the message has %r' % (idxs, list(fr.order)))
     if m.length.value != len(msg.bytes):
-        return 'length.value %r != %d' % (m.length.value, len(msg.bytes))
+        return ('length-value', 'length.value %r != %d' % (m.length.value, len(msg.bytes)))
     for sec in m.sections:
         idx = sec.get_metadata('index')
         if 'section_length' in sec and idx in fr.sections and sec.section_length.value != fr.sections[idx][1]:
-            return 'section %d length %r, reference %d' % (idx, sec.section_length.value, fr.sections[idx][1])
+            return ('section-length-value', 'section %d length %r, reference %d' % (idx, sec.section_length.value, fr.sections[idx][1]))
     d = diff_message(m, msg.subsets)
     if d:
-        return 'values differ: %s %r' % (d[1], jsonable(d[2:]))
+        return ('values-differ', 'values differ: %s %r' % (d[1], jsonable(d[2:])))
     return None
 
 
